@@ -317,6 +317,13 @@ func (s *SimSource) size(req int) int {
 	return req
 }
 
+// slowBudget bounds the slow reads of one run (the bubble's clock is finite).
+func (s *SimSource) slowBudget() bool {
+	s.mu.Lock()
+	defer s.mu.Unlock()
+	return s.SlowReads < 60
+}
+
 // Read implements io.Reader.
 func (s *SimSource) Read(p []byte) (int, error) {
 	s.mu.Lock()
@@ -332,7 +339,7 @@ func (s *SimSource) Read(p []byte) (int, error) {
 	if yield {
 		simrt.Yield("device.read")
 	}
-	if s.sim && s.chunk.Delay > 0 && s.Reads%s.chunk.Delay == 0 {
+	if s.sim && s.chunk.Delay > 0 && s.Reads%s.chunk.Delay == 0 && s.slowBudget() {
 		// slow device: simulated time passes inside the Read
 		time.Sleep(time.Duration(s.chunk.DelaySec) * time.Second)
 		simrt.Yield("device.read.slow")
@@ -369,7 +376,11 @@ func (s *SimSource) serve(p []byte) (int, error) {
 		return 0, s.faultErr()
 	}
 	hasFault := s.fault.Kind != "" && s.fault.Kind != "none"
-	pending := hasFault && (s.FaultFired == 0)
+	burst := s.fault.Burst
+	if burst < 1 {
+		burst = 1
+	}
+	pending := hasFault && (s.FaultFired < burst)
 	if pending && s.pos >= s.fault.At {
 		s.FaultFired++
 		s.ErrReturns++
